@@ -105,18 +105,36 @@ theorem position_passes_rejected (st : State) (s k c : Nat) (hwk : (st.srcs s).w
   exact ⟨_, hs, by simp⟩
 
 /-- **No stranded data** (also the pipe clause of C11): after every step, a descriptor whose `Pos` is behind
-`LastKnwnPos` has a charged worker — unless the service is shutting down, or the descriptor was loaded by a restart
-from a stop that was not quiescent (`stale`) and has not been notified since. -/
+`LastKnwnPos` has a charged worker — unless the service is shutting down, the pipe is deleted (since 69cc67a `startWorker`
+tests the pipe's own context: a deleted pipe starts no worker, see `deleted_pipe_starts_no_worker`), or the descriptor
+was loaded by a restart from a stop that was not quiescent (`stale`) and has not been notified since. -/
 theorem no_stranded_data (n : Nat) (l : Nat → Bool) (p : Nat → Bytes) (f : Ev → Bool) (o : Bool) (ls : List Label)
     (s : Nat) (d : Desc) :
     let st := run cfgNow (init n l p f o) ls
-    (st.srcs s).desc = some d → st.closed = true ∨ d.charged = true ∨ ¬ d.pos < d.lastKnown ∨ d.stale = true := by
+    (st.srcs s).desc = some d →
+    st.closed = true ∨ st.pipe = .deleted ∨ d.charged = true ∨ ¬ d.pos < d.lastKnown ∨ d.stale = true := by
   intro st hd
   have hre : cfgNow.rearm = true := by decide
-  have hchk : cfgNow.startChecksPipe = false := by decide
   have h0 : NS cfgNow (init n l p f o) := by intro s d h; simp [init] at h
   have h := run_ns cfgNow hre _ ls (ginv_init cfgNow n l p f o) h0 s d hd
-  simpa [noStart, hchk] using h
+  rcases h with h | h
+  · simp only [noStart, Bool.or_eq_true, Bool.and_eq_true, beq_iff_eq] at h
+    rcases h with h | h
+    · exact Or.inl h
+    · exact Or.inr (Or.inl h.2)
+  · exact Or.inr (Or.inr h)
+
+/-- the same for a live pipe, in the words of the property: data behind `LastKnwnPos` has a worker -/
+theorem no_stranded_data_live (n : Nat) (l : Nat → Bool) (p : Nat → Bytes) (f : Ev → Bool) (o : Bool) (ls : List Label)
+    (s : Nat) (d : Desc) :
+    let st := run cfgNow (init n l p f o) ls
+    (st.srcs s).desc = some d → st.pipe = .live →
+    st.closed = true ∨ d.charged = true ∨ ¬ d.pos < d.lastKnown ∨ d.stale = true := by
+  intro st hd hl
+  rcases no_stranded_data n l p f o ls s d hd with h | h | h
+  · exact Or.inl h
+  · rw [hl] at h; cases h
+  · exact Or.inr h
 
 /-- a charged descriptor has a live worker goroutine, and only a charged one has -/
 theorem charged_iff_worker (n : Nat) (l : Nat → Bool) (p : Nat → Bytes) (f : Ev → Bool) (o : Bool) (ls : List Label)
@@ -330,19 +348,19 @@ The hypothesis "F is true on the source" of the earlier version is gone with the
 theorem pipe_spec_partial (n : Nat) (l : Nat → Bool) (p : Nat → Bytes) (f : Ev → Bool) (o : Bool) (ls : List Label)
     (s : Nat) (d : Desc) :
     let st := run cfgNow (init n l p f o) ls
-    quiescent st = true → st.closed = false → s < st.n →
+    quiescent st = true → st.closed = false → st.pipe = .live → s < st.n →
     (st.srcs s).desc = some d → (st.srcs s).listens = true →
     d.start = (st.srcs s).createdAt →
     d.lastKnown = (st.srcs s).log.length → d.stale = false →
     proj s st.dest = specProj st s := by
-  intro st hq hcl hsn hd hl hstart hlk hst
+  intro st hq hcl hlive hsn hd hl hstart hlk hst
   have hg : GInv cfgNow st := run_ginv cfgNow _ ls (ginv_init cfgNow n l p f o)
   obtain ⟨a1, a2, a3, a4, _, _, _, _⟩ := (hg.1 s).2 d hd
   have hidle : (st.srcs s).wk = .none := by
     simp only [quiescent, Bool.and_eq_true] at hq
     exact allIdle_spec st hq.2 s hsn
   have hch : d.charged = false := a4.mpr hidle
-  have hns := no_stranded_data n l p f o ls s d hd
+  have hns := no_stranded_data_live n l p f o ls s d hd hlive
   have hpos : d.pos = (st.srcs s).log.length := by
     simp only [curOf, hidle] at a2 a3
     rcases hns with h | h | h | h
@@ -519,19 +537,114 @@ theorem crash_duplicates_at_most_one_batch (n : Nat) (l : Nat → Bool) (p : Nat
     | none => exact a8 hsv
     | some sv => simp [hsv] at hnone
 
-/-! ### a deleted pipe whose descriptor is behind `LastKnwnPos` (finding F49) -/
+/-! ### a deleted pipe starts no worker (finding F49, repaired by 69cc67a) -/
 
-/-- **F49**: `startWorker` tests the *service's* context, not the pipe's. After `DeletePipe`, a descriptor with
-`Pos < LastKnwnPos` therefore makes `workerDone` start a new worker — whose context is already cancelled, so it leaves at
-once and runs `workerDone` again: the cycle `wopen, wtimeout, wdone` is enabled for ever (here: five rounds, each ends with
-a freshly started worker; nothing is copied). -/
-theorem cex_deleted_pipe_respawns_workers :
+/-- `startWorker` with its first conjunct false starts nothing -/
+theorem startWorker_noStart (σ : SrcSt) (d : Desc) : startWorker true σ d = { σ with desc := some d } := by
+  simp [startWorker]
+
+/-- **After `DeletePipe` no worker is started for the pipe** (`startWorker` tests `pp.clsCtx`, fact
+`startWorkerChecksPipeAlive`): in a state with the pipe deleted, no step puts a source's worker into `starting` — neither a
+late notification through a stale cache entry nor `workerDone` with data behind `LastKnwnPos`. A worker that was running
+leaves (`wtimeout`), runs `workerDone`, and that was the last of it: the busy loop of finding F49 is gone. -/
+theorem deleted_pipe_starts_no_worker (st st' : State) (lb : Label) (s : Nat) (hdel : st.pipe = .deleted)
+    (hs : step cfgNow st lb = some st') (hw : (st'.srcs s).wk = .starting) : (st.srcs s).wk = .starting := by
+  have hns : noStart cfgNow st = true := by
+    have hc : cfgNow.startChecksPipe = true := by decide
+    simp [noStart, hc, hdel]
+  have key : ∀ (σ' : SrcSt) (t : Nat), σ'.wk ≠ .starting ∨ σ'.wk = (st.srcs t).wk →
+      (upd st.srcs t σ' s).wk = .starting → (st.srcs s).wk = .starting := by
+    intro σ' t h hh
+    by_cases e : s = t
+    · subst e; simp only [upd_self] at hh
+      rcases h with h | h
+      · exact absurd hh h
+      · rw [← h]; exact hh
+    · rw [upd_ne _ _ _ _ e] at hh; exact hh
+  cases lb with
+  | write t b =>
+    simp only [step] at hs; split at hs
+    · cases hs
+    · simp only [Option.some.injEq] at hs; subst hs
+      exact key { st.srcs t with log := (st.srcs t).log ++ b } t (Or.inr rfl) hw
+  | enqueue i =>
+    simp only [step] at hs; split at hs
+    · cases hs
+    · split at hs
+      · cases hs
+      · simp only [Option.some.injEq] at hs; subst hs; exact hw
+  | notify =>
+    simp only [step] at hs; split at hs
+    · cases hs
+    · split at hs
+      · cases hs
+      · rename_i we rest hch
+        split at hs
+        · simp only [Option.some.injEq] at hs; subst hs
+          refine key _ we.src (Or.inr ?_) hw
+          rw [hns]; unfold onWriteEvent
+          cases (st.srcs we.src).desc <;> simp [startWorker_noStart]
+        · simp only [Option.some.injEq] at hs; subst hs; exact hw
+  | wopen t =>
+    simp only [step] at hs; split at hs
+    · simp only [Option.some.injEq] at hs; subst hs; exact key _ t (Or.inl (by simp)) hw
+    · cases hs
+  | wcopy t k =>
+    simp only [step] at hs; split at hs
+    · split at hs
+      · cases hs
+      · rename_i hg; simp [hdel] at hg
+    · cases hs
+  | wsave t =>
+    simp only [step] at hs; split at hs
+    · rename_i c d hwk hd
+      simp only [Option.some.injEq] at hs; subst hs
+      simp only [] at hw
+      exact key _ t (Or.inl (by simp)) hw
+    · cases hs
+  | wtimeout t =>
+    simp only [step] at hs; split at hs
+    · simp only [Option.some.injEq] at hs; subst hs; exact key _ t (Or.inl (by simp)) hw
+    · simp only [Option.some.injEq] at hs; subst hs; exact key _ t (Or.inl (by simp)) hw
+    · cases hs
+  | wdone t =>
+    simp only [step] at hs; split at hs
+    · simp only [Option.some.injEq] at hs; subst hs
+      refine key _ t (Or.inl ?_) hw
+      rw [hns]; split <;> simp [startWorker_noStart]
+    · cases hs
+  | create =>
+    simp only [step] at hs; split at hs
+    · cases hs
+    · rename_i hg; simp [hdel] at hg
+  | delete =>
+    simp only [step] at hs; split at hs
+    · cases hs
+    · rename_i hg; simp [hdel] at hg
+  | shutdown =>
+    simp only [step] at hs; split at hs
+    · cases hs
+    · simp only [Option.some.injEq] at hs; subst hs; exact hw
+  | halt =>
+    simp only [step] at hs; split at hs
+    · simp only [Option.some.injEq] at hs; subst hs; exact hw
+    · cases hs
+  | restart =>
+    simp only [step] at hs; split at hs
+    · simp only [Option.some.injEq] at hs; subst hs; exact hw
+    · cases hs
+
+/-- **F49 repaired** (regression witness, formerly `cex_deleted_pipe_respawns_workers`): the pipe is deleted while its
+descriptor is behind `LastKnwnPos` and a worker runs; the worker leaves, `workerDone` clears `wCharged` and starts nobody;
+the respawn round is not enabled any more and nothing was copied. -/
+theorem deleted_pipe_quiesces_witness :
     let st0 := run cfgNow (init 1 (fun _ => true) (fun _ => prov0) (fun _ => true) false)
       [.create, .write 0 [evA], .enqueue 0, .notify, .wopen 0, .delete]
-    let round : List Label := [.wtimeout 0, .wdone 0, .wopen 0]
-    (∀ k, k ≤ 5 → (step cfgNow (run cfgNow st0 ((List.replicate k round).flatten ++ [.wtimeout 0])) (.wdone 0)).isSome = true) ∧
-    (run cfgNow st0 ((List.replicate 5 round).flatten)).dest = [] ∧
-    ((run cfgNow st0 ((List.replicate 5 round).flatten)).srcs 0).wk = .opened 0 := by
+    let st1 := run cfgNow st0 [.wtimeout 0, .wdone 0]
+    (st0.srcs 0).desc.map (fun d => (d.pos, d.lastKnown, d.charged)) = some (0, 1, true) ∧
+    (st1.srcs 0).wk = .none ∧ (st1.srcs 0).desc.map (fun d => (d.pos, d.lastKnown, d.charged)) = some (0, 1, false) ∧
+    (step cfgNow st1 (.wopen 0)).isNone = true ∧ (step cfgNow st1 (.wtimeout 0)).isNone = true ∧
+    (step cfgNow st1 (.wdone 0)).isNone = true ∧ allIdle st1 = true ∧ st1.dest = [] := by
   decide
 
 /-! ### non-vacuity -/
